@@ -170,6 +170,7 @@ Fixpoint eval_args (h : heap) (self : nat) (fr : frame) (args : list arg)
 
 Section Interp.
 Variable orc : avop -> pstr -> pstr -> option bool.
+Variable cont : pstr -> bool.
 Variable classes : list cdef.
 
 (* One fuel unit per statement / call level; running out is RuntimeError and
@@ -237,7 +238,7 @@ with eval_rhs (fuel : nat) (h : heap) (self : nat) (fr : frame) (r : rhs)
           do x <- eval_atom h self fr a; do y <- eval_atom h self fr b; Ok (h, VPair x y)
       | ROpaque tag => Ok (h, VObj tag)
       | RFun FSafeIsVersion a =>
-          do v <- eval_atom h self fr a; do s <- safe_is_version orc v; Ok (h, VStr s)
+          do v <- eval_atom h self fr a; do s <- safe_is_version orc cont v; Ok (h, VStr s)
       | RFun FGetConst a =>
           do v <- eval_atom h self fr a; do m <- get_const orc (py_str v); Ok (h, VObj m)
       | RNew c args =>
